@@ -27,6 +27,7 @@ type node struct {
 	keys     []string // o: distinct, sorted
 	nilC     bool     // a/o: nil slice / nil map
 	extraCap int      // a: spare capacity of the slice
+	g        bool     // this node (and everything below it) is of the generic family even inside simple data
 }
 
 func (n *node) container() bool { return n.k == 'a' || n.k == 'o' }
@@ -35,6 +36,7 @@ func hx(s string) string { return hex.EncodeToString([]byte(s)) }
 
 // build makes a fresh Go value. generic selects the node types of package gen.
 func (n *node) build(generic bool, memo map[*node]any) any {
+	generic = generic || n.g
 	switch n.k {
 	case 'n':
 		return nil
@@ -129,6 +131,7 @@ func tag(generic bool, lo, up string) string {
 
 // expect renders the value the description denotes in the syntax of T.render (Conv/Spec.lean).
 func (n *node) expect(generic bool, sb *strings.Builder) {
+	generic = generic || n.g
 	switch n.k {
 	case 'n':
 		sb.WriteString("n")
@@ -292,8 +295,9 @@ func sortedKeysG(m gen.Object) []string {
 func (n *node) heapText(generic bool) (heap, root string) {
 	var cells []string
 	addr := map[*node]int{}
-	var ref func(x *node) string
-	ref = func(x *node) string {
+	var ref func(x *node, generic bool) string
+	ref = func(x *node, generic bool) string {
+		generic = generic || x.g
 		switch x.k {
 		case 'n':
 			return "n"
@@ -322,16 +326,16 @@ func (n *node) heapText(generic bool) (heap, root string) {
 			parts := make([]string, len(x.kids))
 			for i, c := range x.kids {
 				if x.k == 'a' {
-					parts[i] = ref(c)
+					parts[i] = ref(c, generic)
 				} else {
-					parts[i] = hx(x.keys[i]) + "=" + ref(c)
+					parts[i] = hx(x.keys[i]) + "=" + ref(c, generic)
 				}
 			}
 			cells[a] = string(x.k) + ":" + strings.Join(parts, ",")
 		}
 		return tag(generic, string(x.k), strings.ToUpper(string(x.k))) + strconv.Itoa(a)
 	}
-	root = ref(n)
+	root = ref(n, generic)
 	if len(cells) == 0 {
 		return "-", root
 	}
@@ -345,6 +349,9 @@ func (n *node) text() string {
 	ids := map[*node]int{}
 	var w func(x *node)
 	w = func(x *node) {
+		if x.g {
+			sb.WriteByte('~')
+		}
 		switch x.k {
 		case 'n':
 			sb.WriteString("n")
@@ -426,6 +433,18 @@ func (p *textParser) val() (*node, error) {
 	c := p.s[p.i]
 	p.i++
 	const stop = ",]}"
+	if c == '~' {
+		n, err := p.val()
+		if err != nil {
+			return nil, err
+		}
+		if n.g {
+			return n, nil
+		}
+		m := *n // a back reference must not mark the shared description
+		m.g = true
+		return &m, nil
+	}
 	switch c {
 	case 'n':
 		return &node{k: 'n'}, nil
@@ -529,6 +548,20 @@ func (n *node) walk(f func(x *node)) {
 		}
 	}
 	w(n)
+}
+
+// mixed reports whether generic scalars / generic containers occur inside the (simple) description.
+func (n *node) mixed() (scalars, containers bool) {
+	n.walk(func(x *node) {
+		if x.g {
+			if x.container() {
+				containers = true
+			} else {
+				scalars = true
+			}
+		}
+	})
+	return
 }
 
 func (n *node) hasBig() bool {
